@@ -43,6 +43,10 @@ CURATED = [
     "Byte", "Int32sl", "VarInt", "ZigZag", "Flag", "GreedyBytes", "Int24sb", "Struct('a'/Byte + 'b'/Byte)" if False else "Array(2, Struct('a'/Byte, 'b'/Flag))",
     "Struct('a'/Byte, 'd'/Bytes(this.a & 3), 'c'/Computed(this.a * 2))", "Struct('n'/Rebuild(Byte, len_(this.items)), 'items'/Array(this.n & 3, Byte))",
     "Const(b'MZ')", "Default(Byte, 7)", "OneOf(Byte, [1, 2])",
+    # transforms with multi-byte constant keys / amounts on data whose length is not a multiple of the key; regions that hold RawCopy / Tell
+    "ProcessXor(b'\\x01\\xfe\\x10', GreedyBytes)", "ProcessXor(b'\\x01\\xfe', Bytes(3))", "Struct('h'/Byte, 'x'/Prefixed(Byte, ProcessXor(b'ab\\x00', GreedyBytes)))",
+    "FixedSized(6, RawCopy(Int16ub))", "Struct('h'/Bytes(3), 'f'/FixedSized(4, RawCopy(Struct('a'/Byte, 't'/Tell))))", "Prefixed(Byte, RawCopy(GreedyBytes))", "NullTerminated(RawCopy(GreedyBytes))",
+    "Const(1, BytesInteger(this._params.get('w', 2)))" if False else "Struct('w'/Byte, 'c'/Const(1, BytesInteger((this.w & 1) + 1)))",
 ]
 PAIRS = [
     ("ProcessRotateLeft(4, 2, GreedyBytes)", "ProcessRotateLeft(4, 4, GreedyBytes)"), ("ProcessRotateLeft(9, 4, GreedyBytes)", "ProcessRotateLeft(9, 2, GreedyBytes)"),
@@ -51,6 +55,29 @@ PAIRS = [
     ("Struct('a'/Byte)", "Struct('a'/Int16ub)"), ("Prefixed(Byte, GreedyBytes)", "Prefixed(Int16ub, GreedyBytes)"), ("Array(2, Byte)", "Array(3, Byte)"),
     ("Padded(3, Byte)", "Padded(4, Byte)"), ("Select(Int16ub, Byte)", "Select(Byte, Int16ub)"), ("Mapping(Byte, {'a': 1})", "Mapping(Byte, {'a': 2})"),
 ]
+
+
+def _shifted(ctx, a, b, s):
+    terms = []
+
+    def walk(x, y):
+        if isinstance(x, dict) and isinstance(y, dict):
+            for k in dict.keys(x):
+                if isinstance(k, str) and k.startswith("_"):
+                    continue
+                if k not in y:
+                    terms.append(False)
+                elif k in ("offset1", "offset2") and "data" in x and "length" in x:
+                    terms.append(ctx.eq(y[k], x[k] + s))
+                else:
+                    walk(x[k], y[k])
+        elif isinstance(x, (list, tuple)) and isinstance(y, (list, tuple)) and len(x) == len(y):
+            for u, v in zip(x, y):
+                walk(u, v)
+        else:
+            terms.append(ctx.eq(x, y))
+    walk(a, b)
+    return api.and_terms(terms)
 
 
 def instances(tier, seed):
@@ -260,6 +287,11 @@ def harness(ctx, C, p):
         r2 = api.outcome(d.parse_stream, st)
         if not uses_abs:
             ctx.check("parse_stream at a non-zero starting offset returns what parse returns", _same(ctx, r1, r2))
+        elif "RawCopy" in p["source"] and not any(t in p["source"] for t in ("Pointer", "Tell", "Seek", "OffsettedEnd")):
+            # RawCopy reports absolute offsets: they move with the starting offset, everything else (data, value, length) does not
+            ctx.check("parse_stream at a non-zero starting offset succeeds exactly when parse does", r1.ok == r2.ok)
+            if r1.ok:
+                ctx.check("parse_stream at a non-zero starting offset returns what parse returns, RawCopy offsets shifted by the starting offset", _shifted(ctx, r1.value, r2.value, s))
         if r1.ok and not type(r1.value).__name__.startswith("Lazy") and not callable(r1.value) and "Lazy" not in p["source"]:
             b1 = api.outcome(d.build, r1.value)
             st2 = ctx.stream(junk[:s])
